@@ -26,6 +26,7 @@ import   "github.com/pbenner/autodiff/statistics/vectorDistribution"
 
 import . "github.com/pbenner/autodiff"
 import . "github.com/pbenner/threadpool"
+import   "github.com/pbenner/autodiff/verifhook"
 
 /* -------------------------------------------------------------------------- */
 
@@ -197,6 +198,8 @@ func (obj *NormalEstimator) Estimate(gamma ConstVector, p ThreadPool) error {
   //////////////////////////////////////////////////////////////////////////////
   if gamma == nil {
     if err := p.AddRangeJob(0, len(x), g, func(i int, p ThreadPool, erf func() error) error {
+      verifhook.Yield("vectorEstimator.normal.job")
+      verifhook.Event("vectorEstimator.normal", i, p.GetThreadId())
       obj.NewObservation(x[i], nil, p)
       return nil
     }); err != nil {
@@ -204,12 +207,15 @@ func (obj *NormalEstimator) Estimate(gamma ConstVector, p ThreadPool) error {
     }
   } else {
     if err := p.AddRangeJob(0, len(x), g, func(i int, p ThreadPool, erf func() error) error {
+      verifhook.Yield("vectorEstimator.normal.job")
+      verifhook.Event("vectorEstimator.normal", i, p.GetThreadId())
       obj.NewObservation(x[i], gamma.ConstAt(i), p)
       return nil
     }); err != nil {
       return err
     }
   }
+  verifhook.Yield("vectorEstimator.normal.queued")
   if err := p.Wait(g); err != nil {
     return err
   }
